@@ -278,7 +278,11 @@ def standard_check(prop, tier, seed, widen=False, gen=None, race=False):
         cs = cs.get('cases', [])
     elif widen and tier == 'quick':
         # a proof obligation broke: look harder for a concrete failing input
-        cs += gen(u, groups, rng.fork('widen'), 'thorough')
+        # (bounded: the quick tier must stay quick even when it widens)
+        extra = [c for c in gen(u, groups, rng.fork('widen'), 'thorough') if len(c[0]) < 200000]
+        if len(extra) > 30000:
+            extra = extra[::(len(extra) // 30000 + 1)]
+        cs += extra
     corpus = load_corpus(prop, u)
     cases = []
     infos = {}
